@@ -227,14 +227,66 @@ def ev_suite(ctx, vh, args):
                       {"kind": "correspondence-broken", "suite": "events", "theorems": EV_THEOREMS, "case": r}, no_input=True)
 
 
+# ------------------------------------------------------------------ forced window
+def win_term(r):
+    ca = glist(gpair(gN(j), gN(v)) for j, v in zip(r["ja"], r["va"]))
+    cb = glist(gpair(gN(j), gN(v)) for j, v in zip(r["jb"], r["vb"]))
+    rc = {"connect": 0, "connect_error": 1}
+    return "(mkwcase %s %s %s %s %s %s %s %s %s %s %s %s %s %s)" % (
+        ca, cb, gN(r["g"]), gN(rc.get(r["resp_a"], 2)), gN(rc.get(r["resp_b"], 2)),
+        glist(gN(x) for x in r["recv_a"]), glist(gN(x) for x in r["recv_b"]),
+        gview(r["mid_a"]), gview(r["mid_b"]), gview(r["end_a"]), gview(r["end_b"]),
+        glist(gN(x) for x in r["calls_a"]), glist(gN(x) for x in r["calls_b"]), gbool(r["parked"]))
+
+
+def win_suite(ctx, vh, args):
+    def once():
+        return ctx.vh_jsonl(vh, "middleware", args, timeout=900)
+
+    rows = once()
+    if rows is None:
+        return
+    envish = [r for r in rows if r.get("note") or r["resp_a"] in ENV_RESP or r["resp_b"] in ENV_RESP or not r["parked"]]
+    if envish:
+        ctx.note("window: %d cases ended in a dial failure / timeout; suite repeated once" % len(envish))
+        ctx.indeterminate += len(envish)
+        rows = once()
+        if rows is None:
+            return
+    rows = [r for r in rows if not r.get("note")]
+    terms = [win_term(r) for r in rows]
+    for r in rows:
+        ctx.count(1, nontrivial_key=("win", r["nsp"], r["g"], tuple(r["va"]), tuple(r["vb"])), dist="window:k%d:g%d" % (r["k"], r["g"]))
+    ctx.sample({"suite": "window", "case": {k: rows[0][k] for k in ("nsp", "k", "g", "va", "vb", "resp_a", "resp_b", "recv_a", "recv_b", "mid_a")}})
+    bad_oracle, bad_agree = eval_both(ctx, "win", terms, "woracle", "wagree", "woracle_and_wagree")
+    ctx.obligation("correspondence:admission/window", "correspondence", not bad_agree,
+                   "%d forced windows, %d differ from the model run under the same schedule" % (len(rows), len(bad_agree)))
+    ctx.obligation("oracle:admission/window", "oracle", not bad_oracle,
+                   "%d forced windows, %d violate the property" % (len(rows), len(bad_oracle)))
+    for i in bad_oracle[:3]:
+        r = rows[i]
+        ctx.fail_or_known(None, "namespace %s: socket A parked in middleware %d of chain %s while B (chain %s) connects and broadcasts "
+                          "tick1/tick2/tick3 are sent before B / after B / after A: A got %s and ticks %s, B got %s and ticks %s; "
+                          "view of A while parked: %s" % (r["nsp"], r["g"], r["va"], r["vb"], r["resp_a"], r["recv_a"], r["resp_b"],
+                                                          r["recv_b"], {k: v for k, v in r["mid_a"].items() if v}),
+                          {"kind": "failing-input", "engine": "middleware", "args": args, "case": r})
+    if bad_agree and not bad_oracle:
+        r = rows[bad_agree[0]]
+        ctx.violation("two interleaved admissions no longer behave like the model Sio/Middleware.v under the same schedule; "
+                      "first differing case: nsp %s gate %d chains %s / %s" % (r["nsp"], r["g"], r["va"], r["vb"]),
+                      {"kind": "correspondence-broken", "suite": "admission/window", "theorems": ADM_THEOREMS, "case": r}, no_input=True)
+
+
 def run(ctx):
     q = ctx.quick
     ctx.rule = ("admission: every accept/reject vector (accept, error, string, structured data) for chains of 0..%d namespace "
                 "middlewares x 3 join patterns x {/, /chat}, 8 concurrent raw-protocol sessions and again one at a time, "
-                "several rejected CONNECTs then an accepted one per Engine.IO connection; plus a sample through the Go client. "
+                "several rejected CONNECTs then an accepted one per Engine.IO connection; plus a sample through the Go client; "
+                "forced windows: socket A parked in middleware g (every g, every chain of <=%d reaching g) while B is admitted/refused and "
+                "broadcasts are sent. "
                 "events: 10 handler signatures x every accept/reject chain of 0..%d event middlewares x with/without ack. "
                 "non-trivial = at least one middleware ran (distinct (namespace, verdicts, joins, concurrent?) / (signature, chain, ack))"
-                % ((3, 2) if q else (5, 3)))
+                % ((3, 2, 2) if q else (5, 3, 3)))
     ctx.trusted = ["Coq 8.16.1 kernel + vm_compute",
                    "hand-written model Sio/Middleware.v tied to the working tree by live rigs whose histories are compared with the "
                    "model's prediction by kernel evaluation (sampled / exhaustive for small chains, not proved)",
@@ -250,4 +302,5 @@ def run(ctx):
     adm_suite(ctx, vh, "raw-conc8", ["-mode", "adm", "-maxlen", k, "-conc", 8, "-seed", ctx.seed])
     adm_suite(ctx, vh, "raw-seq", ["-mode", "adm", "-maxlen", 2 if q else 4, "-conc", 1, "-seed", ctx.seed + 1])
     adm_suite(ctx, vh, "goclient", ["-mode", "admgo", "-maxlen", k, "-n", 12 if q else 64, "-seed", ctx.seed + 2])
+    win_suite(ctx, vh, ["-mode", "win", "-maxlen", 2 if q else 3, "-seed", ctx.seed + 4])
     ev_suite(ctx, vh, ["-mode", "ev", "-maxlen", 2 if q else 3, "-seed", ctx.seed + 3])
